@@ -73,6 +73,28 @@ def V(key, what, witness=None):
         core.CURRENT._viol_keys[key] += 1
 
 
+def raised_once(ctx, pr, extra=None):
+    """ctx.raised with the same one-witness-per-mechanism cap as V()."""
+    key = f"raise:{type(pr.exc).__name__}@{pr.where}"
+    _seen_keys[key] += 1
+    if _seen_keys[key] <= 1:
+        ctx.raised(pr, extra)
+        return True
+    ctx._viol_keys[key] += 1
+    return False
+
+
+def try_call(ctx, fn, *a, **k):
+    try:
+        return True, ctx.call(fn, *a, **k)
+    except core.PartituraRaised as pr:
+        try_call.fresh = raised_once(ctx, pr)
+        return False, None
+
+
+try_call.fresh = False
+
+
 class LoadHang(BaseException):
     pass
 
@@ -89,12 +111,12 @@ def call_with_budget(ctx, seconds, fn, *a, **k):
     try:
         old_handler = signal.signal(signal.SIGALRM, on_alarm)
     except (ValueError, AttributeError):
-        ok, res = ctx.try_call(fn, *a, **k)
+        ok, res = try_call(ctx, fn, *a, **k)
         return ("ok" if ok else "raised"), res
     t0 = time.time()
     remaining, _ = signal.setitimer(signal.ITIMER_REAL, seconds)
     try:
-        ok, res = ctx.try_call(fn, *a, **k)
+        ok, res = try_call(ctx, fn, *a, **k)
         status = "ok" if ok else "raised"
     except LoadHang:
         status, res = "hang", None
@@ -731,7 +753,7 @@ def load_and_judge(ctx, S, wrong, path, text, cls, origin):
         return
     if status == "raised":
         ctx.extra["load_raised"] += 1
-        last = ctx.violations[-1] if ctx.violations else None
+        last = ctx.violations[-1] if (ctx.violations and try_call.fresh) else None
         if last is not None and last["key"].startswith("raise:") and last["witness"].get("detail") is None:
             last["witness"]["detail"] = S.witness(file_head=text.splitlines()[:60])
         ctx.case(["load-raised", core.digest(S.desc)], False, cls="load-raised")
@@ -950,7 +972,7 @@ def run_roundtrip(ctx, case, unfolded=True):
                      assume_unfolded=unfolded)
         except core.PartituraRaised as pr:
             n_match = sum(1 for a in case.alignment if a["label"] == "match")
-            ctx.raised(pr, extra=jsonable({"class": case.klass, "matches": n_match, "score": R.describe_part(case.part)
+            raised_once(ctx, pr, extra=jsonable({"class": case.klass, "matches": n_match, "score": R.describe_part(case.part)
                                            if len(case.alignment) <= 30 else None, "alignment": case.alignment[:30],
                                            "perf_notes": case.perf["notes"][:30], "ppq": case.perf["ppq"], "mpq": case.perf["mpq"]}))
             ctx.case(["raised", core.digest(case.alignment)], False, cls="save-raised")
@@ -1002,7 +1024,7 @@ def run_corrupt(ctx, rng, text, tag):
             V("load-does-not-terminate", f"load_match(create_score={create}) of a file with duplicate ids did not return within "
               f"{LOAD_BUDGET_S} s", {"injected": done, "file": new.splitlines()[:80]})
         elif status == "raised":
-            last = ctx.violations[-1] if ctx.violations else None
+            last = ctx.violations[-1] if (ctx.violations and try_call.fresh) else None
             if last is not None and last["key"].startswith("raise:") and last["witness"].get("detail") is None:
                 last["witness"]["detail"] = {"injected": done, "create_score": create, "file": new.splitlines()[:80]}
         resolved = sum(dropped.values()) + info["textual_duplicates"]
